@@ -333,7 +333,7 @@ def handle(cmd, args):
     if cmd == 'lemma-real':
         from harness.py import py_lemma
         return py_lemma.handle(cmd, args)
-    if cmd in ('kconv', 'ktrace', 'kmodule'):
+    if cmd in ('kconv', 'ktrace', 'kmodule', 'kdef', 'khints', 'ksym', 'kcount'):
         from harness.py import py_kore
         return py_kore.handle(cmd, args)
     if cmd.startswith('taut-'):
